@@ -86,6 +86,9 @@ impl Oracle for C16 {
                     // it was built for
                     if let Some(rid) = pw.rumor.id {
                         let key = (node, rid.to_hex());
+                        if self.stored_rumors.contains(&key) && is_refusal(&rec.class) && again_same_wrapper {
+                            viols.push(("stored-invitation-not-returned-on-reprocessing", format!("n{node}: the stored invitation {} processed again under the same wrapper id was answered {}", &rid.to_hex()[..8], rec.outcome.chars().take(90).collect::<String>())));
+                        }
                         if self.stored_rumors.contains(&key) && is_refusal(&rec.class) && !again_same_wrapper {
                             viols.push(("stored-invitation-not-returned-on-replay", format!("n{node}: the stored invitation {} delivered again under a new wrapper id was answered {}", &rid.to_hex()[..8], rec.outcome.chars().take(90).collect::<String>())));
                         }
